@@ -16,8 +16,10 @@ ElemQ == {[pre |-> <<>>, lo |-> <<"a">>], [pre |-> P, lo |-> <<"a">>], [pre |-> 
 DeclSets == {<<>>, <<B(P, U1)>>, <<B(<<>>, U1)>>, <<B(<<>>, <<>>)>>, <<B(P, U2)>>, <<B(Q, U1), B(<<>>, U2)>>, <<B(XmlPre, XmlUri), B(P, U1)>>}
 AttrSets == {<<>>, <<[pre |-> <<>>, lo |-> <<"x">>, v |-> <<"1">>]>>, <<[pre |-> P, lo |-> <<"x">>, v |-> <<"a", "sp", "<">>], [pre |-> <<>>, lo |-> <<"y">>, v |-> <<>>]>>}
 CharItems == {[k |-> "chars", v |-> <<"t">>, how |-> "plain"], [k |-> "chars", v |-> <<"<", "c", "&">>, how |-> "cdata"],
-              [k |-> "chars", v |-> <<"&", "w2">>, how |-> "ref"], [k |-> "chars", v |-> <<"sp", "nl">>, how |-> "plain"]}
-Others == {[k |-> "comment", v |-> <<"c">>], [k |-> "pi", lo |-> <<"t">>, v |-> <<"d">>], [k |-> "pi", lo |-> <<"x","m","l","-","s">>, v |-> <<"h">>]}
+              [k |-> "chars", v |-> <<"&", "w2">>, how |-> "ref"], [k |-> "chars", v |-> <<"sp", "nl">>, how |-> "plain"],
+              [k |-> "chars", v |-> <<"a", "b", "c">>, how |-> "split3"]}    \* written as text, CDATA section, text: still ONE text node
+Others == {[k |-> "comment", v |-> <<"c">>], [k |-> "pi", lo |-> <<"t">>, v |-> <<"d">>], [k |-> "pi", lo |-> <<"t">>, v |-> <<"d", "sp", "e", "sp">>],
+           [k |-> "pi", lo |-> <<"x","m","l","-","s">>, v |-> <<"h">>]}   \* (the second PI's data ends in white space: part of the data)
 
 VARIABLES items, scopes, roots   \* items so far; stack of in-scope lists; number of top-level elements started
 vars == <<items, scopes, roots>>
